@@ -3,6 +3,7 @@ package props
 import (
 	"fmt"
 	"os"
+	"path"
 	"path/filepath"
 	"sort"
 	"strings"
@@ -53,7 +54,8 @@ func firstDiffLine(a, b string) string {
 
 func resultKey(r *gen.Result) map[string]string {
 	if !r.OK() {
-		return map[string]string{"<error>": "failed"}
+		// the diagnostic text may name the directory; only its last line without paths is compared
+		return map[string]string{"<error>": "failed"} // diagnostics name paths; both runs failing counts as equal
 	}
 	return r.Sources
 }
@@ -172,6 +174,79 @@ func TestC12(t *testing.T) {
 	iter := 0
 	res := c.Rapid("determinism", c.N(300, 6000), 0, func(rt *rapid.T) {
 		m := genMulti(rt, c, multiOpts{maxFiles: 3, allowNoID: true, allowDupID: true, bigMaps: true, yamlFiles: true, hostileText: false})
+		switch rapid.IntRange(0, 9).Draw(rt, "scenario") {
+		case 0, 1:
+			// an extension-less reference that several --resolve-extension values can complete:
+			// which sibling wins must not depend on anything but the order given
+			thingJ := &model.File{RelPath: "thing.json", ID: "https://example.com/thingj", Root: &model.Node{Kind: model.KObject, Props: []model.Prop{{Name: "fromJson", Node: &model.Node{Kind: model.KString}}}}}
+			thingY := &model.File{RelPath: "thing.yaml", Format: model.YAML, ID: "https://example.com/thingy", Root: &model.Node{Kind: model.KObject, Props: []model.Prop{{Name: "fromYaml", Node: &model.Node{Kind: model.KInteger}}}}}
+			thingM := &model.File{RelPath: "thing.yml", Format: model.YAML, ID: "https://example.com/thingm", Root: &model.Node{Kind: model.KObject, Props: []model.Prop{{Name: "fromYml", Node: &model.Node{Kind: model.KBoolean}}}}}
+			main := m.files[0]
+			main.RelPath = "mainfile.json"
+			main.Format = model.JSON
+			main.Root.Props = append(main.Root.Props, model.Prop{Name: "thing", Node: &model.Node{Kind: model.KRef, Ref: "thing", Target: thingJ.Root}})
+			m.files = []*model.File{main, thingJ, thingY, thingM}
+			m.inputs = []string{main.RelPath}
+			m.cfg.Mappings = nil
+			m.cfg.ResolveExtensions = rapid.Permutation([]string{".json", ".yaml", ".yml"}).Draw(rt, "extorder")
+			m.crossRef = 0
+			c.Count("scenario.ambiguous_extension")
+		case 2, 3:
+			// a chain of file references given by its first file only; all files in one directory
+			if len(m.files) >= 2 {
+				for _, f := range m.files {
+					f.RelPath = path.Base(f.RelPath)
+				}
+				for i := 0; i+1 < len(m.files); i++ {
+					fi, fj := m.files[i], m.files[i+1]
+					// drop earlier cross references (they were spelled for the old layout) and chain i -> i+1
+					var keep []model.Prop
+					for _, p := range fi.Root.Props {
+						if p.Node.Kind == model.KRef && !strings.HasPrefix(p.Node.Ref, "#") {
+							continue
+						}
+						keep = append(keep, p)
+					}
+					fi.Root.Props = append(keep, model.Prop{Name: "chainNext", Node: &model.Node{Kind: model.KRef, Ref: fj.RelPath, Target: fj.Root}})
+					var req []string
+					for _, r := range fi.Root.Required {
+						if fi.Root.Prop(r) != nil {
+							req = append(req, r)
+						}
+					}
+					fi.Root.Required = req
+				}
+				lastF := m.files[len(m.files)-1]
+				var keep []model.Prop
+				for _, p := range lastF.Root.Props {
+					if p.Node.Kind == model.KRef && !strings.HasPrefix(p.Node.Ref, "#") {
+						continue
+					}
+					keep = append(keep, p)
+				}
+				lastF.Root.Props = keep
+				var req []string
+				for _, r := range lastF.Root.Required {
+					if lastF.Root.Prop(r) != nil {
+						req = append(req, r)
+					}
+				}
+				lastF.Root.Required = req
+				m.inputs = []string{m.files[0].RelPath}
+				m.crossRef = 0 // no argument is also a reference target
+				if c.Avoid("paths.chain_with_duplicate_ids") {
+					seen := map[string]bool{}
+					for i, f := range m.files {
+						if f.ID != "" && seen[f.ID] {
+							f.ID = fmt.Sprintf("https://example.com/unique%d", i)
+							c.ExcludedMap()["paths.chain_with_duplicate_ids"]++
+						}
+						seen[f.ID] = true
+					}
+				}
+				c.Count("scenario.chain_single_argument")
+			}
+		}
 		opt := drawOptions(rt)
 		m.cfg.ExtraImports, m.cfg.OnlyModels, m.cfg.MinSizedInts, m.cfg.StructNameFromTitle = opt.ExtraImports, opt.OnlyModels, opt.MinSizedInts, opt.StructNameFromTitle
 		m.cfg.Tags, m.cfg.Capitalizations = opt.Tags, opt.Capitalizations
@@ -239,4 +314,20 @@ func TestC12(t *testing.T) {
 		}
 	}
 	_ = model.JSON
+}
+
+func lastErrPart(e string) string {
+	lines := strings.Split(strings.TrimSpace(e), "\n")
+	last := lines[len(lines)-1]
+	if i := strings.LastIndex(last, ": "); i >= 0 {
+		last = last[i+2:]
+	}
+	// strip absolute directories
+	fields := strings.Fields(last)
+	for i, f := range fields {
+		if strings.Contains(f, "/") {
+			fields[i] = "<path>/" + f[strings.LastIndex(f, "/")+1:]
+		}
+	}
+	return strings.Join(fields, " ")
 }
